@@ -1113,8 +1113,7 @@ class RunMonitor:
         self._wrap_filter(patch)
         self._wrap_bads(patch)
         self._wrap_search(patch)
-        if self.want & {"C15"} or self.gp_fault or "C16" in self.want or "C09" in self.want:
-            self._wrap_gp(patch)
+        self._wrap_gp(patch)
         return patch
 
     def run(self):
